@@ -492,6 +492,11 @@ func inputs(thorough bool) []gen {
 			add("server", a+u, "refused-announce-then-upgrade")
 		}
 	}
+	// header lines (no colon) whose text resembles the errors of a connection that went away
+	for _, txt := range []string{"use of closed network connection", "EOF", "broken pipe", "connection reset by peer", "i/o timeout"} {
+		add("server", announce+"GET / HTTP/1.1\r\n"+txt+"\r\n\r\n", "error-like-header-text")
+		add("server", "X-SOCKETACE / HTTP/1.1\r\n"+txt+"\r\n\r\n"+upgrade, "error-like-header-text")
+	}
 	add("server", announce, "announce-only")
 	add("server", announce+upgrade, "canonical")
 	add("server", "X-SOCKETACE / HTTP/1.1\r\nAccepts-Protocol-Version: v1.0.0, v2.0.0\r\n\r\n"+upgrade, "canonical-list")
@@ -608,10 +613,10 @@ func evalInput(t *testing.T, r *mc.Run, g gen, thorough bool) {
 		if verdict == "must-reject" && accepted {
 			r.Fail("accepts-invalid|"+g.role+"|"+originClass(g.origin), fmt.Sprintf("%s role established a session for %s (seg %s); statuses written: %s", g.role, short(g.input), seg, o.Statuses), size, c)
 		}
-		if verdict == "must-reject" && g.role == "server" && o.Class == "rejected" && o.Statuses == "" && !o.Closed {
+		if g.role == "server" && o.Class == "rejected" && o.Statuses == "" && !o.Closed {
 			r.Fail("reject-without-error-status|server|"+originClass(g.origin), fmt.Sprintf("server refused %s silently: no status line and no close", short(g.input)), size, c)
 		}
-		if verdict == "must-reject" && g.role == "server" && o.Class == "rejected" && o.Statuses != "" {
+		if g.role == "server" && o.Class == "rejected" && o.Statuses != "" {
 			// an error status must be among what it wrote
 			last := o.Statuses[strings.LastIndex(o.Statuses, ",")+1:]
 			if (last == "200" || last == "101") && !o.Closed {
